@@ -133,6 +133,32 @@ theorem tx_wf_iff (e : TxEnc) (t : Tx) : (tx e).wf t ↔ TxDomain e t := by
       · rintro ⟨h1, h2, h3, h4, h5, h7, _, h6, h9, h10⟩
         exact ⟨h1, ⟨⟨⟨h2, h3⟩, ⟨h4, h5⟩, h6, h7, trivial⟩, h10⟩, h9⟩
 
+theorem witLen_replicate_nil' (n : Nat) : witLen (List.replicate n ([] : Witness)) = 0 := by
+  induction n with
+  | zero => rfl
+  | succ n ih => simp [List.replicate_succ, witLen, sumLen, ih]
+
+/-- stripping the witness data of a transaction of either domain lands in the base-encoding domain -/
+theorem stripWitness_domain (e : TxEnc) (t : Tx) (h : TxDomain e t) : TxDomain .base (stripWitness t) := by
+  obtain ⟨h1, h2, h3, h4, h5, _, _, h8, h9, _⟩ := h
+  refine ⟨h1, h2, h3, h4, h5, by simp [stripWitness], ?_, h8, ?_, ?_⟩
+  · intro w hw
+    have : w = [] := by
+      simp only [stripWitness] at hw
+      exact (List.mem_replicate.mp hw).2
+    subst this
+    exact ⟨Nat.zero_le _, fun x hx => by cases hx⟩
+  · have : totalScript (stripWitness t).2 ≤ totalScript t.2 := by
+      simp only [totalScript, stripWitness, witLen_replicate_nil']
+      omega
+    omega
+  · show hasWitness (stripWitness t).2 = false
+    simp only [hasWitness, stripWitness]
+    exact any_replicate_nil _
+
+/-- `SerializeNoWitness` writes the same bytes for a transaction and for its stripped form -/
+theorem enc_base_strip (t : Tx) : (tx .base).enc t = (tx .base).enc (stripWitness t) := rfl
+
 theorem blockHeader_wf_iff (h : BlockHeader) : blockHeader.wf h ↔ HeaderOk h := by
   have h4 := p256_4
   simp only [blockHeader, seq, seqDep, hash32, bytesN, u32le, uintLE, HeaderOk, h4]
